@@ -37,6 +37,15 @@ CLAIMS = {
  "C12": dict(text="Mon_C12 pairs every transmitted fragment with its trigger (sequence correlation incl. deferred READs and series, UNS bit, unsolicited shape and numbering, no-reply functions, size, "
                   "well-formedness by the independent codec, rejected requests answered with an IIN2 error) in lock-step with Outstation.tla over both input alphabets; replayed behaviours validated by TLC.",
              ref="§7 C12", technique="TLA+ model checking (TLC) + trace validation of replayed behaviours"),
+ "C06": dict(text="Link.tla models the frame reader at the level of abstract bytes (start-byte classes, frame identity/offset, corruption) exactly as Parser/Reader are written (state carried across reads, "
+                  "discard-mode rollback, datagram reset); TLC checks soundness and chunk-independence against the leftmost-first reference scan for every stream of <=4-5 pieces and every split into reads, in three reader modes. "
+                  "TLC-exported (stream, split) pairs are concretised with random fields and replayed on the real link::layer::Layer over a pipe; Mon_C06 judges deliveries, Trace_Link validates them read by read; bit-error sweeps run in bulk.",
+             ref="§7 C06", technique="TLA+ model checking (TLC) + trace validation of replayed behaviours",
+             note="Trusted: TLC, Link.tla's abstraction of CRC validity (no accidental collisions; the concretiser re-draws with its own CRC), the harness codec. Frame kinds in the design check: header-only and one short block; lengths 0..250 and contents are swept/sampled by the harness."),
+ "C08": dict(text="Transport.tla holds the assembler as built and the property as an automaton over the same segment stream; TLC checks step-wise refinement for every stream over the alphabet (sequence window around the 6-bit wrap, "
+                  "two sources, broadcast, sizes reaching the buffer limit). Simulated streams are replayed on the real transport reader, the real writer is swept over fragment lengths and round trips run through re-chunked bytes; Mon_C08 (the same automaton) judges.",
+             ref="§7 C08", technique="TLA+ model checking (TLC, refinement) + trace validation of replayed behaviours",
+             note="Trusted: TLC, the harness codec (reference segmenter/reassembler). Bounded stream length in the design check (6 quick / 8 thorough); payload sizes scaled to the 249-byte minimum buffer in replay."),
 }
 
 def main():
@@ -60,7 +69,7 @@ def main():
         })
     na = [{"property_id": p, "reason": NA.get(p, "check not built yet (work in progress)")} for p in PROPS if p not in CLAIMS]
     m = {"version": 1,
-         "setup_cmd": "cd /verif/harness && cargo build --offline 2>&1 | tail -2 && cd /verif/spec && for f in Trace_Outstation.tla TM_C03.tla TM_C04.tla TM_C05.tla TM_C07.tla TM_C11.tla TM_C12.tla TM_C13.tla TM_C14.tla; do tla-sany $f > /dev/null || exit 1; done",
+         "setup_cmd": "cd /verif/harness && cargo build --offline 2>&1 | tail -2 && cd /verif/spec && for f in Trace_Outstation.tla TM_C03.tla TM_C04.tla TM_C06.tla TM_C07L.tla TM_C08.tla Trace_Link.tla TM_C05.tla TM_C07.tla TM_C11.tla TM_C12.tla TM_C13.tla TM_C14.tla; do tla-sany $f > /dev/null || exit 1; done",
          "hooks": {"guard": "dnp3_verif",
                    "enable": "rustflags --cfg dnp3_verif in /verif/harness/.cargo/config.toml (the harness crate has a path dependency on /repo/dnp3, default-features off)",
                    "baseline_off_cmd": "cd /repo && cargo test --workspace --no-fail-fast --offline",
